@@ -1,6 +1,7 @@
 (* Layer 2 of the run model: runner.build_tasks / build_suite_tasks (DESIGN.md appendix C.3) — the task graph of a project.
    The list order, the kinds and both dependency lists are those of the code:
      per suite:  Begin ; Init? ; Tests (get_tests order) ; Teardown? ; tasks of each sub-suite ; End
+                 (Teardown waits on completion of Init and of the tests; End on Begin, the tests, Teardown, sub-suite Ends)
      globally :  SessionSetup? ; suites ; SessionTeardown?
    then the extra on-success edges of tests that depend on other tests (second pass of build_tasks).
    Which fixtures are scheduled per scope comes from the fixture registry; here it is the parameter [sinfo]
@@ -53,7 +54,7 @@ Fixpoint suite_tasks (si : sinfo) (force : bool) (ss : option nat) (parent_begin
       [mkTask KSuiteBegin p (opt_to_list ss ++ opt_to_list parent_begin) []] ++
       (if init then [mkTask KSuiteInit p [begin_id] []] else []) ++
       map (fun t => mkTask KTest (p ++ [tt_name t]) [test_dep] []) ts ++
-      (if init then [mkTask KSuiteTeardown p [] test_ids] else []) ++
+      (if init then [mkTask KSuiteTeardown p [] (init_id :: test_ids)] else []) ++
       concat subs_tasks ++
       [mkTask KSuiteEnd p (begin_id :: test_ids ++ (if init then [after_tests] else []) ++ sub_end_ids) []]
   end.
